@@ -75,13 +75,20 @@ Fixpoint size_e (e : expr) : nat :=
   | ESlice _ a b c => 1 + size_oe a + size_oe b + size_oe c
   | EStar _ e => 1 + size_e e
   | ELambda _ ps b => 1 + size_params ps + size_e b
+  | EConst _ _ | EEllipsis _ | EBytes _ _ | EFloat _ _ | EComplex _ _ _ => 1
+  | EYield _ v => 1 + size_oe v
+  | EYieldFrom _ e | EAwait _ e => 1 + size_e e
+  | EWalrus _ _ _ v => 2 + size_e v
+  | EComp _ _ elt g => 1 + size_e elt + size_gens g
+  | EDictComp _ ky v g => 1 + size_e ky + size_e v + size_gens g
   end%nat
 with size_es (es : exprs) : nat := match es with ENil => 0 | ECons e es' => size_e e + size_es es' end%nat
 with size_args (a : args) : nat := match a with ANil => 0 | ACons _ e a' => size_e e + size_args a' end%nat
 with size_cmps (c : cmps) : nat := match c with CNil => 0 | CCons _ e c' => size_e e + size_cmps c' end%nat
 with size_oe (o : oexpr) : nat := match o with ONone => 0 | OSome e => size_e e end%nat
 with size_ditems (d : ditems) : nat := match d with DNil => 0 | DCons k v r => size_oe k + size_e v + size_ditems r end%nat
-with size_params (ps : params) : nat := match ps with PNil => 0 | PCons _ _ _ _ d r => size_oe d + size_params r end%nat.
+with size_params (ps : params) : nat := match ps with PNil => 0 | PCons _ _ _ _ d r => size_oe d + size_params r end%nat
+with size_gens (g : gens) : nat := match g with GNil => 0 | GCons t i c r => size_e t + size_e i + size_es c + size_gens r end%nat.
 
 Scheme expr_mut := Induction for expr Sort Prop
   with exprs_mut := Induction for exprs Sort Prop
@@ -89,8 +96,9 @@ Scheme expr_mut := Induction for expr Sort Prop
   with cmps_mut := Induction for cmps Sort Prop
   with oexpr_mut := Induction for oexpr Sort Prop
   with ditems_mut := Induction for ditems Sort Prop
-  with params_mut := Induction for params Sort Prop.
-Combined Scheme expr_all_mut from expr_mut, exprs_mut, args_mut, cmps_mut, oexpr_mut, ditems_mut, params_mut.
+  with params_mut := Induction for params Sort Prop
+  with gens_mut := Induction for gens Sort Prop.
+Combined Scheme expr_all_mut from expr_mut, exprs_mut, args_mut, cmps_mut, oexpr_mut, ditems_mut, params_mut, gens_mut.
 
 Definition Pe (e : expr) := forall f k, (size_e e <= f)%nat -> read_expr f (emit_e e k) = Some (nconv_e e, k).
 Definition Pes (es : exprs) := forall f k, (size_es es <= f)%nat ->
@@ -107,12 +115,30 @@ Definition Pditems (d : ditems) := forall f k, (size_ditems d <= f)%nat ->
 Definition Pparams (ps : params) := forall f k, (size_params ps <= f)%nat ->
   read_n (read_param_with (read_expr f)) (len_params ps) (emit_params ps k) = Some (nconv_params ps, k).
 
+Definition Pgens (g : gens) := forall f k, (size_gens g <= f)%nat ->
+  read_n (read_expr f) (len_gens g) (emit_gtargets g k) = Some (nconv_gtargets g, k) /\
+  read_n (read_expr f) (len_gens g) (emit_giters g k) = Some (nconv_giters g, k) /\
+  read_n (read_list_with (read_expr f)) (len_gens g) (emit_gifs g k) = Some (nconv_gifs g, k).
+
+Lemma read_gasync_ok : forall g k, read_n read_bool (len_gens g) (gasync_k g k) = Some (gasync g, k).
+Proof. induction g as [|t i c r IH]; intros; cbn [len_gens gasync_k gasync read_n read_bool]; [reflexivity|]. rewrite IH. reflexivity. Qed.
+
+Lemma read_gens_ok : forall g f K, Pgens g -> (size_gens g <= f)%nat ->
+  read_gens_with (read_expr f) (int_k (Z.of_nat (len_gens g)) (emit_gtargets g (emit_giters g (emit_gifs g (gasync_k g K)))))
+  = Some ((nconv_gtargets g, nconv_giters g, nconv_gifs g, gasync g), K).
+Proof.
+  intros g f K H Hf. unfold read_gens_with, int_k. rewrite Nat2Z.id.
+  destruct (H f (emit_giters g (emit_gifs g (gasync_k g K))) Hf) as [A _]. rewrite A.
+  destruct (H f (emit_gifs g (gasync_k g K)) Hf) as [_ [B _]]. rewrite B.
+  destruct (H f (gasync_k g K) Hf) as [_ [_ C]]. rewrite C. rewrite read_gasync_ok. reflexivity.
+Qed.
+
 Ltac red1 := cbv beta iota; unfold nat_k; rewrite ?Nat2Z.id.
 Ltac fuel f := destruct f as [|f]; [cbn [size_e] in *; lia|].
 
 Lemma read_expr_ok_all :
   (forall e, Pe e) /\ (forall es, Pes es) /\ (forall a, Pargs a) /\ (forall c, Pcmps c) /\ (forall o, Poe o) /\
-  (forall d, Pditems d) /\ (forall ps, Pparams ps).
+  (forall d, Pditems d) /\ (forall ps, Pparams ps) /\ (forall g, Pgens g).
 Proof.
   apply expr_all_mut; unfold Pe, Pes, Pargs, Pcmps, Poe, Pditems, Pparams.
   - (* EName *) intros p id f k Hf. fuel f. cbn [emit_e read_expr str_k]. apply loc_finish_ok.
@@ -152,6 +178,32 @@ Proof.
     rewrite IH by lia. apply loc_finish_ok.
   - (* ELambda *) intros p ps IHps b IHb f k Hf. fuel f. cbn [size_e] in *. cbn [emit_e read_expr nconv_e]. red1.
     rewrite IHps by lia. red1. rewrite IHb by lia. rewrite read_loc_ok. apply loc_finish_ok.
+  - (* EConst *) intros p c f k Hf. fuel f. cbn [emit_e read_expr str_k nconv_e]. apply loc_finish_ok.
+  - (* EEllipsis *) intros p f k Hf. fuel f. cbn [emit_e read_expr nconv_e]. apply loc_finish_ok.
+  - (* EComp *) intros p ck elt IHe g IHg f k Hf. fuel f. cbn [size_e] in *. cbn [emit_e nconv_e]. cbv zeta.
+    destruct ck; cbn [read_expr]; rewrite IHe by lia; rewrite (read_gens_ok g f) by (auto; lia); apply loc_finish_ok.
+  - (* EDictComp *) intros p ky IHk v IHv g IHg f k Hf. fuel f. cbn [size_e] in *. cbn [emit_e read_expr nconv_e].
+    rewrite IHk by lia. rewrite IHv by lia. rewrite (read_gens_ok g f) by (auto; lia). apply loc_finish_ok.
+  - (* EYield *) intros p v IH f k Hf. fuel f. cbn [size_e] in *. cbn [emit_e read_expr nconv_e]. rewrite IH by lia. apply loc_finish_ok.
+  - (* EYieldFrom *) intros p e IH f k Hf. fuel f. cbn [size_e] in *. cbn [emit_e read_expr nconv_e]. rewrite IH by lia. apply loc_finish_ok.
+  - (* EAwait *) intros p e IH f k Hf. fuel f. cbn [size_e] in *. cbn [emit_e read_expr nconv_e]. rewrite IH by lia. apply loc_finish_ok.
+  - (* EWalrus *) intros p tp id v IH f k Hf. fuel f. cbn [size_e] in *. destruct f as [|f]; [lia|].
+    cbn [emit_e nconv_e]. unfold str_k.
+    change (read_expr (Datatypes.S (Datatypes.S f)) (T ASSIGNMENT_EXPR :: T NAME_EXPR :: T LITERAL_STR :: S id :: loc_k tp (T END_TAG :: emit_e v (loc_k p (T END_TAG :: k)))))
+      with (match read_expr (Datatypes.S f) (T NAME_EXPR :: T LITERAL_STR :: S id :: loc_k tp (T END_TAG :: emit_e v (loc_k p (T END_TAG :: k)))) with
+            | Some (MName tp0 id0, ts2) =>
+                match read_expr (Datatypes.S f) ts2 with
+                | Some (v0, ts3) => loc_finish (fun p0 => MAssignExpr p0 (MName tp0 id0) v0) ts3
+                | None => None
+                end
+            | _ => None
+            end).
+    change (read_expr (Datatypes.S f) (T NAME_EXPR :: T LITERAL_STR :: S id :: loc_k tp (T END_TAG :: emit_e v (loc_k p (T END_TAG :: k)))))
+      with (loc_finish (fun p0 => MName p0 id) (loc_k tp (T END_TAG :: emit_e v (loc_k p (T END_TAG :: k))))).
+    rewrite loc_finish_ok. rewrite IH by lia. apply loc_finish_ok.
+  - (* EBytes *) intros p s f k Hf. fuel f. cbn [emit_e read_expr str_k nconv_e]. apply loc_finish_ok.
+  - (* EFloat *) intros p b f k Hf. fuel f. cbn [emit_e read_expr nconv_e]. apply loc_finish_ok.
+  - (* EComplex *) intros p a b f k Hf. fuel f. cbn [emit_e read_expr nconv_e]. apply loc_finish_ok.
   - (* ENil *) intros f k _. reflexivity.
   - (* ECons *) intros e IHe es IHes f k Hf. cbn [size_es] in *.
     cbn [len_es emit_es read_n nconv_es]. rewrite IHe by lia. rewrite IHes by lia. reflexivity.
@@ -173,6 +225,13 @@ Proof.
     cbn [len_params emit_params read_n nconv_params]. unfold read_param_with at 1, str_k, int_k.
     rewrite nth_kind. rewrite IHd by lia. cbv beta iota. rewrite read_loc_ok. cbv beta iota.
     rewrite IHr by lia. reflexivity.
+  - (* GNil *) intros f k _. repeat split.
+  - (* GCons *) intros t IHt i IHi c IHc r IHr f k Hf. cbn [size_gens] in *.
+    cbn [len_gens emit_gtargets emit_giters emit_gifs read_n nconv_gtargets nconv_giters nconv_gifs].
+    destruct (IHr f k) as [A [B C]]; [lia|]. repeat split.
+    + rewrite IHt by lia. rewrite A. reflexivity.
+    + rewrite IHi by lia. rewrite B. reflexivity.
+    + unfold read_list_with at 1, nat_k. rewrite Nat2Z.id. rewrite IHc by lia. rewrite C. reflexivity.
 Qed.
 
 Lemma read_expr_ok : forall e f k, (size_e e <= f)%nat -> read_expr f (emit_e e k) = Some (nconv_e e, k).
@@ -184,7 +243,7 @@ Lemma read_oe_ok : forall o f k, (size_oe o <= f)%nat -> read_opt (read_expr f) 
 Proof. exact (proj1 (proj2 (proj2 (proj2 (proj2 read_expr_ok_all))))). Qed.
 Lemma read_params_ok : forall ps f k, (size_params ps <= f)%nat ->
   read_n (read_param_with (read_expr f)) (len_params ps) (emit_params ps k) = Some (nconv_params ps, k).
-Proof. exact (proj2 (proj2 (proj2 (proj2 (proj2 (proj2 read_expr_ok_all)))))). Qed.
+Proof. exact (proj1 (proj2 (proj2 (proj2 (proj2 (proj2 (proj2 read_expr_ok_all))))))). Qed.
 
 (* ---------------------------------------------------------------- the type sublanguage *)
 Fixpoint size_ty (t : ty) : nat :=
@@ -222,4 +281,5 @@ Proof.
   - unfold mk_member. destruct (nconv_e e); try reflexivity. destruct m; try reflexivity.
     destruct (String.eqb name "super"); reflexivity.
   - unfold mk_boolop. cbn [split_last]. destruct (split_last (nconv_e e2) (nconv_es rest)) as [i x]. reflexivity.
+  - destruct k; reflexivity.
 Qed.
